@@ -11,10 +11,21 @@ with tempfile.TemporaryDirectory() as d:
     env.pop('EASYNETWORK_VERIF', None)
     cp = subprocess.run(['/venv/bin/python', '-m', 'pytest', '-q', '-p', 'no:cacheprovider', '--timeout=900', '--continue-on-collection-errors', '-n', jobs, f'--junitxml={xml}'], cwd=repo, env=env, capture_output=True, text=True)
     print(cp.stdout[-600:])
-    passed = set()
+    # same rule as the official parser (/w/lib/parse_tests.py::parse_junit): a test with ANY failing entry is failed,
+    # even if a rerun entry of it carries no failure child (pytest-rerunfailures writes several entries per test)
+    passed, failed = set(), set()
     for tc in ET.parse(xml).getroot().iter('testcase'):
-        if not any(c.tag in ('failure', 'error', 'skipped') for c in tc):
-            passed.add(f"{tc.get('classname')}::{tc.get('name')}")
+        tid = f"{tc.get('classname')}::{tc.get('name')}"
+        st = (tc.get('status') or '').lower()
+        if tc.find('failure') is not None or tc.find('error') is not None or st in ('fail', 'failed', 'error'):
+            failed.add(tid)
+        elif tc.find('skipped') is not None or st in ('skipped', 'notrun', 'disabled'):
+            pass
+        elif tc.find('flakyFailure') is not None or tc.find('rerunFailure') is not None:
+            failed.add(tid)
+        else:
+            passed.add(tid)
+    passed -= failed
 missing = [t for t in base['stable_pass'] if t not in passed]
 print(f"stable_pass={len(base['stable_pass'])} passed_now={len(passed)} stable_but_not_passing={len(missing)}")
 for t in missing[:40]:
